@@ -10,6 +10,7 @@ import RaptorModel.Driver.Amg
 import RaptorModel.Driver.C17
 import RaptorModel.Driver.C14
 import RaptorModel.Driver.C13
+import RaptorModel.Driver.C12
 /-!
 `rmdrv <casefile>` — reads one case per line (`<prop> <op> <int> <int> ...`), runs the executable
 model and the decidable specification predicates, prints one verdict line per case:
@@ -32,6 +33,7 @@ def dispatch (prop op : String) (a : Array Int) : Verdict :=
   | "C17" => C17.run op a
   | "C14" => C14.run op a
   | "C13" => C13.run op a
+  | "C12" => C12.run op a
   | "C01" => Amg.run prop op a
   | "C10" => Amg.run prop op a
   | _ => badCase s!"unknown property {prop}"
